@@ -354,7 +354,7 @@ loop 0:
                 self.rem().len() <= o.len(),
                 bc_ok(eaten(o, self.rem()), 1, self.rem().len() == 0),     // [C17] the comment ends at the first `-]` or at the end of input
             decreases self.fuel()
-?before `match c {`:
+loopbody 0:
             broadcast use lemma_suffix_trans_b;
             let ghost n = o.len() - self.rem().len();
             proof { assert(o.skip(n - 1).drop_first() =~= o.skip(n)); assert(o[n - 1] == c); }
